@@ -69,7 +69,7 @@ func c05History(kind string, traj []int, hist []int) (sig, msg string, updates i
 	c05UpdatePos = c05UpdatePos[:0]
 	vrt.ManualClock = 1_000_000_000
 	reg := NewRecRegistry()
-	lim := &ScriptLimit{Traj: traj}
+	lim := &ScriptLimit{Traj: append([]int{}, traj...)}
 	strat := newStrategy(kind, 9, reg) // constructed with an unrelated limit: the limiter must install the estimate
 	l, err := limiter.NewDefaultLimiter(lim, 10e6, 10e6, 1e6, 10, strat, limit.NoopLimitLogger{}, reg)
 	if err != nil {
@@ -94,6 +94,16 @@ func c05History(kind string, traj []int, hist []int) (sig, msg string, updates i
 		case 5:
 			vrt.ManualClock += 10e6
 			outcome = 2
+		case 6:
+			// the algorithm's estimate moves outside OnSample (e.g. an operator's SetLimit on a settable
+			// limit) to the value the next update will report as well: that update's OnSample then leaves
+			// the estimate unchanged, yet enforcement must follow it
+			if lim.Pos+1 < len(lim.Traj) {
+				lim.Traj[lim.Pos] = lim.Traj[lim.Pos+1]
+			}
+		case 7:
+			// ... or to an unrelated value
+			lim.Traj[lim.Pos] = 6
 		}
 		tok, ok := l.Acquire(ctx)
 		if !ok {
@@ -117,7 +127,7 @@ func c05History(kind string, traj []int, hist []int) (sig, msg string, updates i
 
 var c05UpdatePos []int
 
-var c05Dev = []string{"default(success,2ms)", "drop", "ignore", "below-threshold", "gap(one period)", "drop+gap"}
+var c05Dev = []string{"default(success,2ms)", "drop", "ignore", "below-threshold", "gap(one period)", "drop+gap", "estimate-set-externally-to-next", "estimate-set-externally-to-6"}
 
 func c05Seq(c *Ctx, kind string, traj []int, db int) {
 	name := "C05/history/" + kind
